@@ -164,6 +164,12 @@ fn create_diagnostic(err: &SplError, text: &str) -> Diagnostic {
     }
 }
 
+/// The protocol knows three line terminators: `\n`, `\r\n` and `\r`.
+/// This is true for the character that ends a line (for `\r\n` that is the `\n`).
+fn is_line_end(c: char, rest: &str) -> bool {
+    c == '\n' || (c == '\r' && !rest.starts_with('\n'))
+}
+
 /// Converts a string index to a `Position`.
 /// Characters are counted in UTF-16 code units, as the protocol demands.
 /// If the index is out of bounds, the last possible position is returned.
@@ -174,7 +180,7 @@ pub fn as_position(index: usize, text: &str) -> Position {
         if i == index {
             break;
         }
-        if c == '\n' {
+        if is_line_end(c, &text[i + c.len_utf8()..]) {
             line += 1;
             character = 0;
         } else {
@@ -215,12 +221,12 @@ pub fn get_insertion_index(position: &Position, text: &str) -> usize {
     for (i, c) in text.char_indices() {
         if line == position.line {
             // a character beyond the end of the line means the end of the line
-            let at_line_end = c == '\n' || text[i..].starts_with("\r\n");
+            let at_line_end = c == '\n' || c == '\r';
             if character >= position.character || at_line_end {
                 return i;
             }
         }
-        if c == '\n' {
+        if is_line_end(c, &text[i + c.len_utf8()..]) {
             line += 1;
             character = 0;
         } else {
